@@ -43,7 +43,7 @@ fn be32(h: &[u8; 16], off: usize) -> u32 { ((h[off] as u32) << 24) | ((h[off + 1
 
 fn dead_fragment() -> pending_packet::FragmentRef { pending_packet::FragmentRef { packet: std::rc::Weak::new(), fragment_id: 0 } }
 
-//@h props=C10,C11,C02,C13 tier=quick timeout=1200 role=sync-emission also_quick=C02
+//@h props=C10,C11,C02,C13 tier=quick timeout=1200 role=sync-emission also_quick=C02,C11
 //@fn HalfConnection::emit_sync_frame, frame::Frame::write (sync)
 //@bound ANY sender state as far as emit_sync_frame reads it: frame ids (next, base) any, packet ids equal or one outstanding, a further packet waiting in the send queue or not, pending/resend queue lengths in {0,1}, keepalive None or any interval, credit any isize, idle time and RTO any < 2^40
 //@assume crc::compute stubbed (constant); small constructor (4-slot windows)
